@@ -22,6 +22,7 @@ class Gen:
         self.ops = []          # text lines
         self.mres = []         # model results
         self.sessions = {}     # name -> (tok, rw)
+        self.closed = []       # names of sessions closed earlier (for deliberate stale use)
         self.objects = {}      # name -> dict(tok, token, private, label)
         self.so = {}
         self.user = {}
@@ -57,6 +58,8 @@ class Gen:
     def any_session(self, stale_p=0.08):
         if self.sessions and self.r.random() > stale_p:
             return self.r.choice(sorted(self.sessions))
+        if self.closed and self.r.random() < 0.6:
+            return self.r.choice(self.closed[-6:])      # a handle that was closed earlier (stale use)
         return self.r.choice(['h%d' % self.r.randint(0, 40), '#%d' % self.r.randint(0, 60), '#0'])
 
     def any_object(self, stale_p=0.1):
@@ -103,15 +106,16 @@ class Gen:
     def op_close(self):
         s = self.any_session()
         self.emit('close %s' % s)
-        if self.r.random() < 0.7:
+        if s in self.sessions:
             self.sessions.pop(s, None)
+            self.closed.append(s)
 
     def op_closeall(self):
         k, t = self.tokname()
         self.emit('closeall %s' % t)
-        if self.r.random() < 0.7:
-            for s in [s for s, v in self.sessions.items() if v[0] == k]:
-                self.sessions.pop(s)
+        for s in [s for s, v in self.sessions.items() if v[0] == k]:
+            self.sessions.pop(s)
+            self.closed.append(s)
 
     def op_login(self):
         s = self.any_session()
@@ -416,5 +420,9 @@ class Gen:
         for _ in range(n):
             if self.dead:
                 break
+            if not self.sessions and 'open' in names and self.r.random() < 0.85:
+                # without an open session nearly every call answers CKR_SESSION_HANDLE_INVALID: open one first
+                self.op_open()
+                continue
             getattr(self, 'op_' + self.r.choices(names, weights)[0])()
         return self.ops, self.mres
